@@ -133,10 +133,26 @@ type verdictBook struct {
 	probes int64
 }
 
+// probeClass maps the generator's filler transactions "<key>=w<digits>" / "<key>=v<digits>" (millions of them, all
+// different) to one representative per key: they are probed once per key, not once each (a scratch instance that is
+// offered tens of millions of transactions one by one costs tens of gigabytes). Every other transaction is its own class.
+func probeClass(tx string) string {
+	i := strings.IndexByte(tx, '=')
+	if i < 0 || i+2 >= len(tx) || (tx[i+1] != 'w' && tx[i+1] != 'v') {
+		return tx
+	}
+	for _, c := range tx[i+2:] {
+		if c < '0' || c > '9' {
+			return tx
+		}
+	}
+	return tx[:i+2] + "#"
+}
+
 func (v *verdictBook) lookup(tx string) (txVerdict, bool) {
 	v.mu.Lock()
 	defer v.mu.Unlock()
-	t, ok := v.known[tx]
+	t, ok := v.known[probeClass(tx)]
 	return t, ok
 }
 
@@ -144,7 +160,8 @@ func (v *verdictBook) lookup(tx string) (txVerdict, bool) {
 func (v *verdictBook) ask(tx string) (txVerdict, bool) {
 	v.mu.Lock()
 	defer v.mu.Unlock()
-	if t, ok := v.known[tx]; ok {
+	cls := probeClass(tx)
+	if t, ok := v.known[cls]; ok {
 		return t, true
 	}
 	if v.probe == nil {
@@ -156,7 +173,7 @@ func (v *verdictBook) ask(tx string) (txVerdict, bool) {
 	}
 	v.probes++
 	t := txVerdict{refused: ref, err: e}
-	v.known[tx] = t
+	v.known[cls] = t
 	return t, true
 }
 
